@@ -145,8 +145,13 @@ func (x *Exec) instrWrites(in ssa.Instruction, w *writeSet, depth int) {
 	case *ssa.MapUpdate:
 		mt := under(t.Map.Type()).(*types.Map)
 		dk, _, vk, _ := x.mapKeys(mt)
-		w.keys[dk] = true
-		w.keys[vk] = true
+		if w.invariantIn(t.Map) {
+			w.objects[dk] = append(w.objects[dk], t.Map)
+			w.objects[vk] = append(w.objects[vk], t.Map)
+		} else {
+			w.keys[dk] = true
+			w.keys[vk] = true
+		}
 	case *ssa.Call:
 		x.callWrites(&t.Call, w, depth)
 	case *ssa.Defer:
@@ -178,7 +183,11 @@ func (x *Exec) callWrites(c *ssa.CallCommon, w *writeSet, depth int) {
 		case "delete":
 			mt := under(c.Args[0].Type()).(*types.Map)
 			dk, _, _, _ := x.mapKeys(mt)
-			w.keys[dk] = true
+			if w.invariantIn(c.Args[0]) {
+				w.objects[dk] = append(w.objects[dk], c.Args[0])
+			} else {
+				w.keys[dk] = true
+			}
 		}
 		return
 	}
@@ -309,7 +318,10 @@ func (x *Exec) havoc(fr *Frame, st *State, w *writeSet) {
 		if w.keys[k] || w.all {
 			continue
 		}
-		srt := x.heapSort[k]
+		srt, known := x.heapSort[k]
+		if !known {
+			continue
+		}
 		h := x.heapGet(st, k, srt)
 		inner := srt[len("(Array Int ") : len(srt)-1]
 		for _, sv := range w.regions[k] {
@@ -327,7 +339,10 @@ func (x *Exec) havoc(fr *Frame, st *State, w *writeSet) {
 		if w.keys[k] || w.all {
 			continue
 		}
-		srt := x.heapSort[k]
+		srt, known := x.heapSort[k]
+		if !known {
+			continue
+		}
 		h := x.heapGet(st, k, srt)
 		inner := srt[len("(Array Int ") : len(srt)-1]
 		for _, pv := range w.objects[k] {
